@@ -17,10 +17,19 @@ Only property statements live here; the proofs are references to `Lemmas.lean`. 
 * `Justified m J ns`  for the node at position `i` and each of its edges `(r, tgt)` there is a
                       position `j` with `ns[j].id = tgt` and `J preds[i] r preds[j]`.
 
-Hypotheses of the main theorems: `NoReserved m` and `m.hasCompleteIVs` (part of the
-intrinsic-variable property); neither connectedness nor scope plausibility is needed for soundness.
+* `lkbIds 1 ps`       the ids of the LKB method in EP order: ARG0 for a non-quantifier, `_1, _2, …`
+                      for quantifiers (and EPs without ARG0);
+* `UniqueQuant m`     at most one quantifier binds a variable (reading of the input space fixed with
+                      the coordinator; `is_well_formed` does not test it);
+* `HasReps m`         every scope that is the `lo` of a handle constraint or the value of an
+                      argument has a representative (forced by finding F08);
+* `ExpressibleM/E`    local copies of C03's `Expressible` for the source MRS / the resulting EDS.
+
+Hypotheses: soundness (shape, edge justification, closedness) needs only `NoReserved m` and
+`m.hasCompleteIVs`; identifier uniqueness and the BV clause need the full intrinsic-variable
+property; totality needs `isWellFormed`, `NoReserved` and `HasReps`.
 -/
-import Verif.C05.Lemmas
+import Verif.C05.ExprLemmas
 
 namespace Verif.C05
 open Verif.Sem
@@ -94,10 +103,6 @@ theorem fromMrs_top_is_node (pm : PM) (uniq : Bool) (m : MRS)
 
 /-! ## "with unique node identifiers" -/
 
--- FULL STATEMENT (not proved): for `unique_ids = true` too, under `m.hasIVProperty` and
--- `NoReserved m`, `(e.nodes.map (·.id)).Nodup` (the ids given by `make_ids_unique`).  The missing
--- part is the analysis of the two loops of `make_ids_unique` (`newIds`); it is covered by the
--- direct oracle and the correspondence run on every generated case.
 /-- With `unique_ids=False` the node identifiers are the EP ids, hence pairwise distinct. -/
 theorem fromMrs_ids_unique_partial (pm : PM) (m : MRS)
     (hnr : NoReserved m) (hc : m.hasCompleteIVs = true)
@@ -106,13 +111,97 @@ theorem fromMrs_ids_unique_partial (pm : PM) (m : MRS)
   have hids := fromMrs_ids_raw hnr h
   exact ⟨hids, by rw [hids]; exact ids_nodup hnr hc⟩
 
-/-! ## "Converting any well-formed MRS to EDS succeeds without error" — known finding F08 -/
+/-- "LKB-style identifier reassignment": with `unique_ids=True` and the intrinsic-variable
+property the node identifiers are, in order, the ARG0 of a non-quantifier and `_1, _2, …` for the
+quantifiers (`lkbIds`).  Under that property no two EPs share a new id, so the second loop of
+`make_ids_unique` — the only place where the iteration order of a Python `set` could matter —
+changes nothing (`newIds_eq`): the statement holds for every admissible order. -/
+theorem fromMrs_ids_lkb_style (pm : PM) (m : MRS) (hiv : m.hasIVProperty = true) (hnr : NoReserved m)
+    (e : EDS) (w : List Warn) (h : fromMrs pm true m = .ok (e, w)) :
+    e.nodes.map (·.id) = lkbIds 1 m.preds := fromMrs_ids_lkb hiv hnr h
 
--- FULL STATEMENT (not proved): `m.isWellFormed → ∃ e, fromMrs pm uniq m = .ok (e, [])`.
--- It is FALSE for the code (F08): `scope.representatives` gives a scope no representative when
--- its members take each other as non-scopal arguments, and `reps[lbl][0]` raises IndexError.
--- The forced hypothesis is `HasReps` (every scope has a representative); the totality proof under
--- it is not done — totality and absence of warnings are checked by the direct oracle.
+/-- Node identifiers are pairwise distinct, for both values of `unique_ids` and every
+`predicate_modifiers` argument. -/
+theorem fromMrs_ids_unique (pm : PM) (uniq : Bool) (m : MRS) (hiv : m.hasIVProperty = true)
+    (hnr : NoReserved m) (e : EDS) (w : List Warn) (h : fromMrs pm uniq m = .ok (e, w)) :
+    (e.nodes.map (·.id)).Nodup := by
+  cases uniq with
+  | false => exact (fromMrs_ids_unique_partial pm m hnr (completeIVs_of_ivProperty hiv) e w h).2
+  | true =>
+    rw [fromMrs_ids_lkb hiv hnr h]
+    exact lkbIds_nodup m.preds 1 (by rw [filterMap_ivKey]; exact nonQuantIVs_nodup hiv)
+      (by rw [filterMap_ivKey]; exact fun v hv => (nonQuantIVs_plain hnr v hv).1)
+
+/-- `NoReserved` is needed: with ARG0s of the reserved form `_1`, `_2` the second loop hands out
+`_2` although it is in use (real code: `from_mrs(MRS(rels=[EP('_the_q','h1',{'ARG0':'x2','RSTR':'h3'}),
+EP('_a_n_1','h4',{'ARG0':'_1'}), EP('_b_n_1','h5',{'ARG0':'_2'})]))` has node ids `_2, _1, _2`;
+the model, which iterates the group in EP order, gives `_1, _2, _2`). -/
+theorem fromMrs_ids_unique_cex :
+    (match fromMrs .off true
+        { top := none, index := none, hcons := [],
+          rels := [{ predicate := "_the_q", label := ⟨"h", 1⟩, args := [("ARG0", ⟨"x", 2⟩), ("RSTR", ⟨"h", 3⟩)] },
+                   { predicate := "_a_n_1", label := ⟨"h", 4⟩, args := [("ARG0", ⟨"_", 1⟩)] },
+                   { predicate := "_b_n_1", label := ⟨"h", 5⟩, args := [("ARG0", ⟨"_", 2⟩)] }] } with
+     | .ok (e, _) => e.nodes.map (·.id) == [⟨"_", 1⟩, ⟨"_", 2⟩, ⟨"_", 2⟩]
+     | .error _ => false) = true := by decide
+
+/-- `make_ids_unique` renames consistently: the result with `unique_ids=True` is the result with
+`unique_ids=False` with one renaming `ρ`, injective on the EP ids, applied to the node ids, the top
+and every edge target; everything else is unchanged. -/
+theorem fromMrs_unique_ids_renaming (pm : PM) (m : MRS) (hiv : m.hasIVProperty = true)
+    (hnr : NoReserved m) (e : EDS) (w : List Warn) (h : fromMrs pm true m = .ok (e, w)) :
+    ∃ e' ρ, fromMrs pm false m = .ok (e', w) ∧
+      (∀ a ∈ m.ids, ∀ b ∈ m.ids, ρ a = ρ b → a = b) ∧
+      e.top = e'.top.map ρ ∧
+      All2 (fun n' n => n.id = ρ n'.id ∧ n.edges = n'.edges.map (fun rt => (rt.1, ρ rt.2)) ∧
+        n.core = n'.core) e'.nodes e.nodes := by
+  obtain ⟨e', h1, h2, h3, h4⟩ := fromMrs_renaming_aux hiv hnr h
+  exact ⟨e', _, h1, h2, h3, h4⟩
+
+/-! ## "a quantifier has exactly one bound-variable edge to the predication it quantifies" -/
+
+/-- For `predicate_modifiers ∈ {False, True}` and both values of `unique_ids`: when at most one
+quantifier binds a variable (`UniqueQuant`, part of the reading of the input space), the node of a
+quantifier whose ARG0 is the intrinsic variable of a non-quantifier predication has exactly one
+`BV` edge, and it ends at the node of that predication. -/
+theorem bv_exactly_one (pm : PM) (uniq : Bool) (m : MRS) (hiv : m.hasIVProperty = true)
+    (hnr : NoReserved m) (huq : UniqueQuant m) (hpm : pm = .off ∨ pm = .std)
+    (e : EDS) (w : List Warn) (h : fromMrs pm uniq m = .ok (e, w))
+    (qn pn : Pred × ENode) (hqn : qn ∈ m.preds.zip e.nodes) (hpn : pn ∈ m.preds.zip e.nodes)
+    (hqq : qn.1.2.isQuantifier = true) (hpq : pn.1.2.isQuantifier = false)
+    (v : Var) (hqv : qn.1.2.iv = some v) (hpv : pn.1.2.iv = some v) :
+    qn.2.edges.filter (fun rt => rt.1 == BV_ROLE) = [(BV_ROLE, pn.2.id)] :=
+  bv_edge hiv hnr huq hpm h hqn hpn hqq hpq hqv hpv
+
+/-- `UniqueQuant` is needed: with two quantifiers on one variable the first gets no `BV` edge
+(`MRS.quantification_pairs` keeps one quantifier per ARG0); such an MRS passes `is_well_formed`. -/
+def doubleQuant : MRS :=
+  { top := some ⟨"h", 0⟩, index := some ⟨"e", 2⟩,
+    rels := [{ predicate := "_a_v_1", label := ⟨"h", 1⟩, args := [("ARG0", ⟨"e", 2⟩), ("ARG1", ⟨"x", 3⟩)] },
+             { predicate := "_b_n_1", label := ⟨"h", 4⟩, args := [("ARG0", ⟨"x", 3⟩)] },
+             { predicate := "_the_q", label := ⟨"h", 5⟩, args := [("ARG0", ⟨"x", 3⟩), ("RSTR", ⟨"h", 6⟩)] },
+             { predicate := "_a_q", label := ⟨"h", 8⟩, args := [("ARG0", ⟨"x", 3⟩), ("RSTR", ⟨"h", 9⟩)] }],
+    hcons := [⟨⟨"h", 0⟩, "qeq", ⟨"h", 1⟩⟩, ⟨⟨"h", 6⟩, "qeq", ⟨"h", 4⟩⟩, ⟨⟨"h", 9⟩, "qeq", ⟨"h", 4⟩⟩] }
+
+set_option maxRecDepth 100000 in
+theorem bv_exactly_one_cex :
+    doubleQuant.isWellFormed = true ∧
+    (match fromMrs .std true doubleQuant with
+     | .ok (e, _) => e.nodes.map (·.edges) ==
+         [[("ARG1", ⟨"x", 3⟩)], [], [], [("BV", ⟨"x", 3⟩)]]
+     | .error _ => false) = true := by decide
+
+/-! ## "Converting any well-formed MRS to EDS succeeds without error or warning" -/
+
+/-- Totality and absence of warnings, for `predicate_modifiers ∈ {False, True}` and both values of
+`unique_ids`: a well-formed MRS (connected, intrinsic-variable property, scope-plausible) without
+reserved sorts, in which every scope selected by a handle constraint or an argument has a
+representative (`HasReps`), converts without error and without warning.  `HasReps` is forced by
+finding F08 (`fromMrs_total_cex_F08` below): it is NOT implied by well-formedness for the code. -/
+theorem fromMrs_total (pm : PM) (uniq : Bool) (m : MRS) (hwf : m.isWellFormed = true)
+    (hnr : NoReserved m) (hhr : HasReps m) (hpm : pm = .off ∨ pm = .std) :
+    ∃ e, fromMrs pm uniq m = .ok (e, []) := fromMrs_total_aux hwf hnr hhr hpm
+
 /-- F08: a well-formed MRS on which the conversion raises `IndexError` (for every configuration). -/
 def f08Witness : MRS :=
   { top := some ⟨"h", 0⟩, index := some ⟨"e", 2⟩,
@@ -158,5 +247,45 @@ example : NoReserved dogBarks := by
   simp only [dogBarks, List.mem_cons, List.not_mem_nil, or_false] at hep
   rcases hep with rfl | rfl | rfl <;>
     (simp only [EP.iv, dlookup, INTRINSIC_ROLE] at hv; simp at hv; subst hv; decide)
+
+/-! ## "the result survives C03 serialization" -/
+
+/-- The converted graph satisfies the precondition of the C03 round-trip theorems
+(`ExpressibleE`: a local copy of `Verif.C03.Expressible` — lower-case predicates and property
+values, upper-case roles and property names, no repeated key in a node's edge or property map, no
+empty type, no top without nodes — plus the side conditions of those theorems: every edge target is
+a node, node ids pairwise distinct, no untyped node with properties) whenever the source MRS is
+expressible in the same sense (`ExpressibleM`), for `predicate_modifiers ∈ {False, True}` and both
+values of `unique_ids`.  What remains outside: that identifiers and names are SYMBOL tokens of the
+native lexer (checked by the direct oracle's real round trips). -/
+theorem fromMrs_expressible (pm : PM) (uniq : Bool) (m : MRS) (hiv : m.hasIVProperty = true)
+    (hnr : NoReserved m) (hx : ExpressibleM m) (hpm : pm = .off ∨ pm = .std)
+    (e : EDS) (w : List Warn) (h : fromMrs pm uniq m = .ok (e, w)) : ExpressibleE e :=
+  fromMrs_expressible_aux hiv hnr hx hpm h
+
+example : ExpressibleM dogBarks := by
+  refine ⟨by decide, by decide, by decide, by decide, ?_⟩
+  intro ep hep v hv
+  simp only [dogBarks, List.mem_cons, List.not_mem_nil, or_false] at hep
+  rcases hep with rfl | rfl | rfl <;>
+    (simp only [EP.iv, dlookup, INTRINSIC_ROLE] at hv; simp at hv; subst hv; decide)
+
+set_option maxRecDepth 100000 in
+/-- `HasReps` is satisfiable: it holds for the example (checked through the executable test). -/
+example : HasReps dogBarks := hasReps_of_hasRepsB (by decide)
+
+/-- F08 seen from the theorem: the witness is well-formed but has a selected scope without
+representative. -/
+theorem f08_not_hasReps : ¬ HasReps f08Witness := by
+  intro hhr
+  have hnr : NoReserved f08Witness := by
+    intro ep hep v hv
+    simp only [f08Witness, List.mem_cons, List.not_mem_nil, or_false] at hep
+    rcases hep with rfl | rfl <;>
+      (simp only [EP.iv, dlookup, INTRINSIC_ROLE] at hv; simp at hv; subst hv; decide)
+  obtain ⟨e, he⟩ := fromMrs_total .std true f08Witness fromMrs_total_cex_F08.1 hnr hhr (Or.inr rfl)
+  have := fromMrs_total_cex_F08.2.1
+  rw [he] at this
+  simp [raisesIndexError] at this
 
 end Verif.C05
